@@ -993,9 +993,167 @@ let run_legal (pinned : bool) (x : sexp) : string =
   | _ -> failwith "legal"
 (* ==== END C11 TypeLegal ======================================================== *)
 
+(* ==== C09 LintWalk: the declarations handed to the linter (harness/src/lintser.rs) ==== *)
+(* type tags are interned: tag id -> (min, max) as value_type.rs reports them; for the primitive
+   integer types the regenerated range table (Gen/TypeTables.v) must say the same *)
+let lw_tags : (int, coq_Z * coq_Z) Hashtbl.t = Hashtbl.create 16
+let lw_tag_ids : (string, int) Hashtbl.t = Hashtbl.create 16
+let lw_table_mismatch = ref ""
+let lw_ty (x : sexp) : coq_N option =
+  match x with
+  | A "-" -> None
+  | L [A k; A mn; A mx] ->
+      let key = k ^ " " ^ mn ^ " " ^ mx in
+      let id = match Hashtbl.find_opt lw_tag_ids key with
+        | Some i -> i
+        | None ->
+            let i = Hashtbl.length lw_tag_ids + 1 in
+            Hashtbl.add lw_tag_ids key i;
+            let (mnz, mxz) = (z_of_string mn, z_of_string mx) in
+            Hashtbl.add lw_tags i (mnz, mxz);
+            (if k <> "other" && k <> "bool" then
+               let p = prim_of_string k in
+               if TypeTables.vt_min p <> mnz || TypeTables.vt_max p <> mxz then
+                 lw_table_mismatch := k);
+            i in
+      Some (n_of_int id)
+  | _ -> failwith "lintwalk: type"
+let rec lw_expr (x : sexp) : LintWalk.expr =
+  match x with
+  | L [A "bin"; l; r] -> LintWalk.EBinary (lw_expr l, lw_expr r)
+  | L [A "un"; e] -> LintWalk.EUnary (lw_expr e)
+  | L [A "bool"] -> LintWalk.EBool
+  | L [A "sint"; A v; t; A p] -> LintWalk.ESigned (z_of_string v, lw_ty t, n_of_string p)
+  | L [A "bits"; A v; t; A p] -> LintWalk.EBit (z_of_string v, lw_ty t, n_of_string p)
+  | L [A "str"] -> LintWalk.EString
+  | L (A "arr" :: es) -> LintWalk.EArray (List.map lw_expr es)
+  | L (A "structural" :: es) -> LintWalk.EStructural (List.map (fun e -> LintWalk.MkMember (lw_expr e)) es)
+  | L [A "paren"; e] -> LintWalk.EParen (lw_expr e)
+  | L (A "deref" :: ss) -> LintWalk.EDeref (List.map lw_step ss)
+  | L [A "coerce"; e] -> LintWalk.EAutocoerce (lw_expr e)
+  | L [A "bitcast"; e] -> LintWalk.EBitCast (lw_expr e)
+  | L [A "cast"; e] -> LintWalk.ETypeCast (lw_expr e)
+  | L (A "lenof" :: ss) -> LintWalk.ELengthOfArray (List.map lw_step ss)
+  | L [A "sizeof"] -> LintWalk.ESizeOf
+  | L (A "call" :: es) -> LintWalk.ECall (List.map lw_expr es)
+  | L [A "poison"] -> LintWalk.EPoison
+  | _ -> failwith "lintwalk: expr"
+and lw_step (x : sexp) : LintWalk.refstep =
+  match x with
+  | L [A "elem"; e] -> LintWalk.RElement (lw_expr e)
+  | L [A "mem"] -> LintWalk.RMember
+  | L [A "deslice"] -> LintWalk.RAutodeslice
+  | L [A "autoderef"] -> LintWalk.RAutoderef
+  | L [A "autoview"] -> LintWalk.RAutoview
+  | _ -> failwith "lintwalk: step"
+let lw_oexpr = function L [A "none"] -> None | e -> Some (lw_expr e)
+let rec lw_stmt (x : sexp) : LintWalk.stmt =
+  match x with
+  | L [A "var"; v] -> LintWalk.SDeclaration (lw_oexpr v)
+  | L [A "assign"; L (A "steps" :: ss); v] -> LintWalk.SAssignment (List.map lw_step ss, lw_expr v)
+  | L (A "mcall" :: es) -> LintWalk.SMethodCall (List.map lw_expr es)
+  | L [A "loop"; A p] -> LintWalk.SLoop (n_of_string p)
+  | L [A "goto"] -> LintWalk.SGoto
+  | L [A "label"] -> LintWalk.SLabel
+  | L [A "if"; l; r; A p; t] ->
+      LintWalk.SIf ({ LintWalk.cmp_left = lw_expr l; LintWalk.cmp_right = lw_expr r; LintWalk.cmp_loc = n_of_string p }, lw_stmt t, None)
+  | L [A "if"; l; r; A p; t; L [A "else"; e; A pe]] ->
+      LintWalk.SIf ({ LintWalk.cmp_left = lw_expr l; LintWalk.cmp_right = lw_expr r; LintWalk.cmp_loc = n_of_string p }, lw_stmt t,
+                    Some (LintWalk.MkElse (lw_stmt e, n_of_string pe)))
+  | L (A "block" :: A p :: ss) -> LintWalk.SBlock (LintWalk.MkBlock (List.map lw_stmt ss, n_of_string p))
+  | L [A "poison"] -> LintWalk.SPoison
+  | _ -> failwith "lintwalk: stmt"
+let lw_decl (x : sexp) : LintWalk.decl =
+  match x with
+  | L [A "const"; e] -> LintWalk.DConstant (lw_expr e)
+  | L [A "fn"; L [A "body"; L (A "stmts" :: ss); r]] ->
+      LintWalk.DFunction (Some { LintWalk.fb_statements = List.map lw_stmt ss; LintWalk.fb_return_value = lw_oexpr r })
+  | L [A "fnpoison"] -> LintWalk.DFunction None
+  | L [A "head"] -> LintWalk.DFunctionHead
+  | L [A "struct"] -> LintWalk.DStructure
+  | L [A "import"] -> LintWalk.DImport
+  | L [A "poison"] -> LintWalk.DPoison
+  | _ -> failwith "lintwalk: decl"
+let z_lt a b = (Z.compare a b = Lt)
+let run_lintwalk (x : sexp) : string =
+  Hashtbl.reset lw_tags; Hashtbl.reset lw_tag_ids; lw_table_mismatch := "";
+  match x with
+  | L (A "mod" :: ds) ->
+      let ds = List.map lw_decl ds in
+      (* linter.rs: signed literal: value < min when negative, value > max otherwise; bit literal: value > max *)
+      let oor (signed : bool) (v : coq_Z) (t : coq_N) : bool =
+        let (mn, mx) = Hashtbl.find lw_tags (int_of_n t) in
+        if signed && z_lt v Z0 then z_lt v mn else z_lt mx v in
+      let evs = LintWalk.lint_module ds in
+      let buf = Buffer.create 256 in
+      List.iter (function
+        | LintWalk.EvLiteral (p, sg, v, Some t) -> if oor sg v t then Buffer.add_string buf ("(1142 " ^ string_of_n p ^ ")")
+        | LintWalk.EvLiteral (_, _, _, None) -> ()
+        | LintWalk.EvLoopFirst (l, _, _) -> Buffer.add_string buf ("(1800 " ^ string_of_n l ^ ")")) evs;
+      let nocc = List.fold_left (fun a d -> a + List.length (LintWalk.occs_decl d)) 0 ds in
+      "lints=" ^ Buffer.contents buf ^ " literals=" ^ string_of_int nocc ^
+      (if !lw_table_mismatch = "" then "" else " range-table-mismatch=" ^ !lw_table_mismatch)
+  | _ -> failwith "lintwalk: module"
+
+(* ==== C20 Escape: what the rebuilder prints for a string constant / an import ============= *)
+let hex_of_ns (l : coq_N list) : string =
+  String.concat "" (List.map (fun c -> Printf.sprintf "%02x" (int_of_n c)) l)
+let run_escape (x : sexp) : string =
+  match x with
+  | L [A kind; A h] ->
+      let bs = if h = "-" then [] else hex_bytes h in
+      (match kind with
+       | "const" -> hex_of_ns (Escape.rebuild_const_string bs)
+       | "import" -> hex_of_ns (Escape.rebuild_import [] bs)
+       | "string" -> hex_of_ns (Escape.rebuild_string bs)
+       | _ -> failwith "escape: kind")
+  | _ -> failwith "escape"
+
+(* ==== C01 MemLower: the instructions computing the address of a reference ================= *)
+let rec ml_pty (x : sexp) : MemLower.pty =
+  match x with
+  | L [A "int"; A b] -> MemLower.PInt (z_of_string b)
+  | A "bool" -> MemLower.PBool
+  | L [A "arr"; A n; e] -> MemLower.PArr (z_of_string n, ml_pty e)
+  | L (A "struct" :: ms) -> MemLower.PStruct (List.map ml_pty ms)
+  | L [A "ptr"; t] -> MemLower.PPtr (ml_pty t)
+  | L [A "view"; t] -> MemLower.PView (ml_pty t)
+  | L [A "slice"; t] -> MemLower.PSlice (ml_pty t)
+  | L [A "sliceptr"; t] -> MemLower.PSlicePtr (ml_pty t)
+  | L [A "endless"; t] -> MemLower.PEndless (ml_pty t)
+  | _ -> failwith "memlower: type"
+let rec nat_of_int (i : int) : Datatypes.nat = if i <= 0 then Datatypes.O else Datatypes.S (nat_of_int (i - 1))
+let ml_step (x : sexp) : MemLower.step =
+  match x with
+  | L [A "e"; A i] -> MemLower.SElem (z_of_string i)
+  | L [A "m"; A k] -> MemLower.SMember (nat_of_int (int_of_string k))
+  | _ -> failwith "memlower: step"
+let ml_show (is : MemLower.instr list) : string =
+  String.concat " " (List.map (function
+    | MemLower.IGep gs -> "G[" ^ String.concat "," (List.map (function MemLower.GConst z -> string_of_z z | MemLower.GDyn _ -> "?") gs) ^ "]"
+    | MemLower.ILoad -> "L"
+    | MemLower.IExtract k -> "X" ^ string_of_z k) is)
+let run_memlower (x : sexp) : string =
+  match x with
+  | L [A kind; t; L path] ->
+      let b = (match kind with "param" -> MemLower.BParam | "local" -> MemLower.BLocal | "global" -> MemLower.BGlobal | _ -> failwith "memlower: base") in
+      let t = ml_pty t and p = List.map ml_step path in
+      (* a scalar is read or written at the end of the path: when the path ends at a pointer (to a pointer
+         ...) the typer appends one Autoderef per layer (typer.rs autoderef, the coercion to the target type) *)
+      let rec layers = function MemLower.PPtr u -> 1 + layers u | _ -> 0 in
+      (match MemLower.elaborate t p with
+       | None -> "instrs=none\tpinned=none"
+       | Some (rs, reached) ->
+           let rs = rs @ List.init (layers reached) (fun _ -> MemLower.RAutoderef) in
+           "instrs=" ^ ml_show (MemLower.lower_ref b rs) ^ "\tpinned=" ^ ml_show (MemLower.lower_ref_pinned b rs))
+  | _ -> failwith "memlower"
+
 let dispatch (stream : string) (x : sexp) : string =
   match stream with
   | "labels" -> run_labels x
+  | "lintwalk" -> run_lintwalk x
+  | "escape" -> run_escape x
+  | "memlower" -> run_memlower x
   | "vars" -> run_vars x
   | "exec" -> run_exec 20000 x
   | "expand" -> run_expand x
